@@ -216,3 +216,58 @@ def blocks_assigning_ret(body, pred):
 
 def is_const_bool(e, truth):
     return e[0] == "const" and e[1].get("int") == (1 if truth else 0) and e[1].get("ty") == "bool"
+
+
+def feeding_calls(body, op, depth=0):
+    """Call paths whose results can determine the value of operand `op` (through phi temporaries of `||`/`&&`/
+    `matches!` and the branch conditions selecting among their definitions)."""
+    e = body.expr_of_operand(op)
+    out = set(c[1] for c in calls_in(e))
+    consts = set()
+    for x in subexprs(e):
+        if x[0] == "const" and "int" in x[1]:
+            consts.add(x[1]["int"])
+        if x[0] == "phi" and depth < 3:
+            l = x[1]
+            for d in body.defs().get(l, []):
+                if d[0] == "stmt" and d[3]["k"] == "=":
+                    de = body.expr_of_rvalue(d[3]["rv"])
+                    out |= set(c[1] for c in calls_in(de))
+                    if de[0] == "const" and "int" in de[1]:
+                        consts.add(de[1]["int"])
+                    for (ge, pol, val, sb) in guard_atoms(body, d[1]):
+                        out |= set(c[1] for c in calls_in(ge))
+                elif d[0] == "call":
+                    out.add(callee_path(d[2]))
+                    for (ge, pol, val, sb) in guard_atoms(body, d[1]):
+                        out |= set(c[1] for c in calls_in(ge))
+    return out, consts
+
+
+def true_return_conditions(body):
+    """Guards (canon expr, variant-or-value) under which the function assigns `_0 = true`."""
+    out = []
+    for b in blocks_assigning_ret(body, lambda e: is_const_bool(e, True)):
+        conds = []
+        for (e, pol, val, sb) in guard_atoms(body, b):
+            conds.append((e, pol, val))
+        out.append((b, conds))
+    return out
+
+
+def panic_sites(prog, fn_key, text=None):
+    """Blocks of fn that call panic_fmt / panic with a message containing `text`."""
+    fn = prog.fns[fn_key]
+    body = fn.body
+    out = []
+    for b in range(body.n):
+        t = body.term(b)
+        if t["k"] != "call" or t.get("target") is not None:
+            continue
+        p = callee_path(t)
+        if not (p.startswith("core::panicking::") or p.startswith("std::rt::begin_panic")):
+            continue
+        msg = canon(body.expr_of_operand(t["args"][0])) if t["args"] else ""
+        if text is None or text in msg:
+            out.append((b, msg))
+    return out
